@@ -8,7 +8,7 @@ use serde_json::{json, Value};
 use std::collections::{BTreeMap, HashSet};
 use std::sync::{Arc, Mutex};
 use taskchampion_sync_server::WebServer;
-use taskchampion_sync_server_core::{InMemoryStorage, ServerConfig, Storage};
+use taskchampion_sync_server_core::{AddVersionResult, InMemoryStorage, ServerConfig, Storage};
 use taskchampion_sync_server_storage_sqlite::SqliteStorage;
 use uuid::Uuid;
 
@@ -44,6 +44,68 @@ pub struct ReqSpec {
     pub client_id: Option<Vec<u8>>,
     pub content_type: Option<String>,
     pub chunks: Vec<Vec<u8>>,
+}
+
+/// Several requests IN FLIGHT AT ONCE on one worker: every body arrives chunk by chunk, round-robin between the
+/// requests, so each handler is suspended at its payload `.await` while the others run (what a real worker does
+/// with concurrent connections).  Returns the responses in request order.
+pub async fn call_overlapping<S, B>(app: &S, rs: &[ReqSpec]) -> Vec<Result<Decoded, String>>
+where
+    S: actix_web::dev::Service<actix_http::Request, Response = actix_web::dev::ServiceResponse<B>, Error = actix_web::Error>,
+    B: actix_web::body::MessageBody,
+{
+    let mut senders = vec![];
+    let mut futs = vec![];
+    for r in rs {
+        let mut tr = match r.method {
+            "GET" => test::TestRequest::get(),
+            _ => test::TestRequest::post(),
+        }
+        .uri(&r.uri);
+        if let Some(c) = &r.client_id {
+            if let Ok(hv) = actix_web::http::header::HeaderValue::from_bytes(c) {
+                tr = tr.insert_header((actix_web::http::header::HeaderName::from_static("x-client-id"), hv));
+            }
+        }
+        if let Some(ct) = &r.content_type {
+            tr = tr.insert_header(("Content-Type", ct.clone()));
+        }
+        let (sender, payload) = actix_http::h1::Payload::create(false);
+        let req = tr.to_request();
+        let (req, _) = req.replace_payload(actix_http::Payload::from(payload));
+        senders.push((sender, r.chunks.clone()));
+        futs.push(async move {
+            match test::try_call_service(app, req).await {
+                Ok(resp) => {
+                    let status = resp.status().as_u16();
+                    let headers = resp.headers().iter().map(|(n, v)| (n.as_str().to_string(), v.as_bytes().to_vec())).collect();
+                    let body = test::read_body(resp).await.to_vec();
+                    Ok(Decoded { status, headers, body })
+                }
+                Err(e) => {
+                    let resp = e.error_response();
+                    let status = resp.status().as_u16();
+                    let headers = resp.headers().iter().map(|(n, v)| (n.as_str().to_string(), v.as_bytes().to_vec())).collect();
+                    Ok(Decoded { status, headers, body: vec![] })
+                }
+            }
+        });
+    }
+    let feeder = async move {
+        let rounds = senders.iter().map(|(_, c)| c.len()).max().unwrap_or(0);
+        for i in 0..=rounds {
+            for (s, chunks) in senders.iter_mut() {
+                if i < chunks.len() {
+                    s.feed_data(actix_web::web::Bytes::from(chunks[i].clone()));
+                } else if i == chunks.len() {
+                    s.feed_eof();
+                }
+                actix_rt::task::yield_now().await;
+            }
+        }
+    };
+    let (out, _) = futures::join!(futures::future::join_all(futs), feeder);
+    out
 }
 
 pub async fn call<S, B>(app: &S, r: &ReqSpec) -> Result<Decoded, String>
@@ -116,7 +178,9 @@ pub struct Ctx {
 
 impl Ctx {
     fn v(&mut self, tags: &[&str], what: String, req: &ReqSpec, trace: &[String]) {
-        if self.violations.len() < 8 {
+        // at most 3 reports per distinct tag set (so that one kind of failure cannot crowd out another), 40 in all
+        let same = self.violations.iter().filter(|x| x["tags"] == json!(tags)).count();
+        if same < 3 && self.violations.len() < 40 {
             let mut r = json!({"method": req.method, "uri": req.uri, "client_id_header": req.client_id.as_ref().map(|c| String::from_utf8_lossy(c).to_string()),
                 "content_type": req.content_type, "chunk_sizes": req.chunks.iter().map(|c| c.len()).collect::<Vec<_>>()});
             if req.chunks.iter().map(|c| c.len()).sum::<usize>() <= 64 {
@@ -148,6 +212,10 @@ fn uri_gcv(p: Uuid) -> String {
 }
 fn uri_snap(v: Uuid) -> String {
     format!("/v1/client/add-snapshot/{v}")
+}
+
+fn pieces(body: &[u8], m: usize) -> Vec<Vec<u8>> {
+    body.chunks(body.len() / m + 1).map(|c| c.to_vec()).collect()
 }
 
 fn split(body: &[u8], how: usize) -> Vec<Vec<u8>> {
@@ -739,7 +807,8 @@ pub fn leg_http(thorough: bool, seed: u64) -> Value {
                         if let Ok(d) = &d {
                             ctx.common(d, &r, &tr, "fault");
                             if p.injected > 0 && d.status != 500 {
-                                ctx.v(&["C05", "C14"], format!("a storage call failed but the response is {} (expected 500)", d.status), &r, &tr);
+                                // a 409 here is additionally a C02 matter: the request is "rejected" although a step of it may have taken effect
+                                ctx.v(if d.status == 409 { &["C05", "C14", "C02", "C18"] } else { &["C05", "C14"] }, format!("a storage call failed but the response is {} (expected 500)", d.status), &r, &tr);
                             }
                         }
                         (p.injected, tr)
@@ -766,51 +835,135 @@ pub fn leg_http(thorough: bool, seed: u64) -> Value {
             }
         }
     }
-    // storage failure on each endpoint => 500, still with Cache-Control
-    {
-        let dir = scratch("tcss-http3-");
-        for fail_at in 0..3usize {
-            let st = SqliteStorage::new(dir.path()).unwrap();
-            let plan = Arc::new(Mutex::new(FaultPlan::default()));
-            let cl = Uuid::new_v4();
-            {
-                let srv = taskchampion_sync_server_core::Server::new(ServerConfig::default(), SqliteStorage::new(dir.path()).unwrap());
-                let mut t = srv.txn(cl).unwrap();
-                t.new_client(NIL).unwrap();
-                t.commit().unwrap();
-            }
-            let web = WebServer::new(ServerConfig::default(), None, FaultStorage { inner: st, plan: plan.clone() });
-            sys.block_on(async {
-                let app = test::init_service(App::new().configure(|sc| web.config(sc))).await;
-                for (name, r) in [
-                    ("add-version", ReqSpec { method: "POST", uri: uri_av(NIL), client_id: Some(cl.to_string().into_bytes()), content_type: Some(HS_CT.into()), chunks: vec![b"x".to_vec()] }),
-                    ("get-child-version", ReqSpec { method: "GET", uri: uri_gcv(NIL), client_id: Some(cl.to_string().into_bytes()), content_type: None, chunks: vec![] }),
-                    ("add-snapshot", ReqSpec { method: "POST", uri: uri_snap(Uuid::new_v4()), client_id: Some(cl.to_string().into_bytes()), content_type: Some(SNAP_CT.into()), chunks: vec![b"s".to_vec()] }),
-                    ("get-snapshot", ReqSpec { method: "GET", uri: "/v1/client/snapshot".into(), client_id: Some(cl.to_string().into_bytes()), content_type: None, chunks: vec![] }),
-                ] {
-                    {
-                        let mut p = plan.lock().unwrap();
-                        let b = p.calls;
-                        p.fail_at = vec![b + fail_at];
-                        p.after_effect = false;
-                        p.injected = 0;
+    // uploads that OVERLAP on one worker (bodies trickle in round-robin): every stored body is its own request's body,
+    // no other client's bytes (C06, C09), for add-version and add-snapshot, 2..4 requests in flight
+    for backend in ["mem", "sqlite"] {
+        let dir = scratch("tcss-http5-");
+        let web = if backend == "mem" { WebServer::new(ServerConfig::default(), None, InMemoryStorage::new()) } else { WebServer::new(ServerConfig::default(), None, SqliteStorage::new(dir.path()).unwrap()) };
+        sys.block_on(async {
+            let app = test::init_service(App::new().configure(|sc| web.config(sc))).await;
+            for n in 2..=4usize {
+                for shape in 0..3usize {
+                    let cls: Vec<Uuid> = (0..n).map(|_| Uuid::new_v4()).collect();
+                    let bodies: Vec<Vec<u8>> = (0..n).map(|k| (0..(700 + 300 * k + 17 * shape)).map(|i| (0x10 * (k as u8 + 1)) ^ (i as u8 & 0x0f)).collect()).collect();
+                    let reqs: Vec<ReqSpec> = (0..n).map(|k| ReqSpec { method: "POST", uri: uri_av(NIL), client_id: Some(cls[k].to_string().into_bytes()), content_type: Some(HS_CT.into()), chunks: pieces(&bodies[k], 3 + (k + shape) % 3) }).collect();
+                    let tr = vec![format!("{backend}: {n} add-version uploads of {n} new clients in flight at once on one worker, bodies arriving chunk by chunk round-robin (shape {shape})")];
+                    let ds = call_overlapping(&app, &reqs).await;
+                    let mut vids = vec![];
+                    for (k, d) in ds.iter().enumerate() {
+                        if let Ok(d) = d {
+                            ctx.common(d, &reqs[k], &tr, "overlap");
+                            if d.status != 200 {
+                                ctx.v(&["C14", "C02", "C09"], format!("overlapping upload #{k} answered {}", d.status), &reqs[k], &tr);
+                            }
+                            vids.push(d.one("x-version-id").and_then(|t| Uuid::parse_str(&t).ok()));
+                        } else {
+                            vids.push(None);
+                        }
                     }
-                    let tr = vec![format!("{name} with storage call #{fail_at} of the request failing")];
-                    if let Ok(d) = call(&app, &r).await {
-                        let inj = plan.lock().unwrap().injected;
-                        plan.lock().unwrap().fail_at.clear();
-                        ctx.common(&d, &r, &tr, "fault");
-                        if inj > 0 && d.status != 500 {
-                            ctx.v(&["C05", "C14"], format!("{name}: a storage call failed but the response is {} (expected 500)", d.status), &r, &tr);
+                    for k in 0..n {
+                        let g = ReqSpec { method: "GET", uri: uri_gcv(NIL), client_id: Some(cls[k].to_string().into_bytes()), content_type: None, chunks: vec![] };
+                        if let Ok(gd) = call(&app, &g).await {
+                            ctx.common(&gd, &g, &tr, "overlap-readback");
+                            if gd.status == 200 && gd.body != bodies[k] {
+                                ctx.v(&["C06", "C09", "C03"], format!("client #{k}'s version reads back as {} bytes differing from its {} uploaded bytes (first difference at {:?}) after overlapping uploads", gd.body.len(), bodies[k].len(), gd.body.iter().zip(bodies[k].iter()).position(|(a, b)| a != b)), &reqs[k], &tr);
+                            }
+                        }
+                    }
+                    // snapshots of those versions, again overlapping
+                    let sreqs: Vec<ReqSpec> = (0..n).filter(|k| vids[*k].is_some()).map(|k| ReqSpec { method: "POST", uri: uri_snap(vids[k].unwrap()), client_id: Some(cls[k].to_string().into_bytes()), content_type: Some(SNAP_CT.into()), chunks: pieces(&bodies[(k + 1) % n], 3 + (k + shape) % 3) }).collect();
+                    let owners: Vec<usize> = (0..n).filter(|k| vids[*k].is_some()).collect();
+                    let sds = call_overlapping(&app, &sreqs).await;
+                    for (j, d) in sds.iter().enumerate() {
+                        let k = owners[j];
+                        if let Ok(d) = d {
+                            ctx.common(d, &sreqs[j], &tr, "overlap-snap");
+                        }
+                        let g = ReqSpec { method: "GET", uri: "/v1/client/snapshot".into(), client_id: Some(cls[k].to_string().into_bytes()), content_type: None, chunks: vec![] };
+                        if let Ok(gd) = call(&app, &g).await {
+                            ctx.common(&gd, &g, &tr, "overlap-snap-readback");
+                            if gd.status == 200 && gd.body != bodies[(k + 1) % n] {
+                                ctx.v(&["C06", "C09", "C10"], format!("client #{k}'s snapshot reads back as {} bytes differing from the {} uploaded after overlapping uploads", gd.body.len(), bodies[(k + 1) % n].len()), &sreqs[j], &tr);
+                            }
                         }
                     }
                 }
-            });
+            }
+        });
+    }
+    // storage failure on each endpoint => 500, still with Cache-Control; the failing call is each call of the request in turn,
+    // failing before or AFTER taking effect (a lost commit acknowledgement): the answer is an error, never a conflict or a
+    // success, and the client is exactly as before or exactly as after the request (C05, C02, C14)
+    {
+        let dir = scratch("tcss-http3-");
+        for fail_at in 0..6usize {
+            for after in [false, true] {
+                let st = SqliteStorage::new(dir.path()).unwrap();
+                let plan = Arc::new(Mutex::new(FaultPlan::default()));
+                let cl = Uuid::new_v4();
+                let v1 = {
+                    let srv = taskchampion_sync_server_core::Server::new(ServerConfig::default(), SqliteStorage::new(dir.path()).unwrap());
+                    let mut t = srv.txn(cl).unwrap();
+                    t.new_client(NIL).unwrap();
+                    t.commit().unwrap();
+                    drop(t);
+                    match srv.add_version(cl, NIL, b"one".to_vec()).unwrap().0 {
+                        AddVersionResult::Ok(v) => v,
+                        _ => NIL,
+                    }
+                };
+                let web = WebServer::new(ServerConfig::default(), None, FaultStorage { inner: st, plan: plan.clone() });
+                sys.block_on(async {
+                    let app = test::init_service(App::new().configure(|sc| web.config(sc))).await;
+                    for (name, r) in [
+                        ("add-version", ReqSpec { method: "POST", uri: uri_av(v1), client_id: Some(cl.to_string().into_bytes()), content_type: Some(HS_CT.into()), chunks: vec![b"x".to_vec()] }),
+                        ("get-child-version", ReqSpec { method: "GET", uri: uri_gcv(NIL), client_id: Some(cl.to_string().into_bytes()), content_type: None, chunks: vec![] }),
+                        ("add-snapshot", ReqSpec { method: "POST", uri: uri_snap(v1), client_id: Some(cl.to_string().into_bytes()), content_type: Some(SNAP_CT.into()), chunks: vec![b"s".to_vec()] }),
+                        ("get-snapshot", ReqSpec { method: "GET", uri: "/v1/client/snapshot".into(), client_id: Some(cl.to_string().into_bytes()), content_type: None, chunks: vec![] }),
+                    ] {
+                        let before = cs(&absfn::via_raw_sql(dir.path()).unwrap().db, cl);
+                        {
+                            let mut p = plan.lock().unwrap();
+                            let b = p.calls;
+                            p.fail_at = vec![b + fail_at];
+                            p.after_effect = after;
+                            p.injected = 0;
+                            p.trace.clear();
+                        }
+                        let d = call(&app, &r).await;
+                        let (inj, trace) = {
+                            let mut p = plan.lock().unwrap();
+                            p.fail_at.clear();
+                            (p.injected, p.trace.clone())
+                        };
+                        let tr = vec![format!("{name} for a client with one version; storage call #{fail_at} of the request fails {} taking effect; calls made: {:?}", if after { "after" } else { "before" }, trace)];
+                        if let Ok(d) = d {
+                            ctx.common(&d, &r, &tr, "fault");
+                            if inj > 0 && d.status != 500 {
+                                ctx.v(if d.status == 409 { &["C05", "C14", "C02", "C18"] } else { &["C05", "C14"] }, format!("{name}: a storage call failed but the response is {} (expected 500)", d.status), &r, &tr);
+                            }
+                            if inj > 0 {
+                                let raw = absfn::via_raw_sql(dir.path()).unwrap();
+                                let now = cs(&raw.db, cl);
+                                let unchanged = now == before;
+                                let grew = match name {
+                                    "add-version" => now.versions.len() == before.versions.len() + 1 && chain_wf(&now).is_ok() && now.versions.get(&now.latest).map(|v| v.parent_version_id == v1 && v.history_segment == b"x".to_vec()).unwrap_or(false) && now.snapshot == before.snapshot,
+                                    "add-snapshot" => now.versions == before.versions && now.latest == before.latest && now.snapshot.as_ref().map(|s| s.version_id) == Some(v1) && now.snapshot_data == Some(b"s".to_vec()),
+                                    _ => false,
+                                };
+                                if !(unchanged || grew) || !raw.anomalies.is_empty() {
+                                    ctx.v(&["C05", "C02", "C01"], format!("{name}: after the failed request the client is neither as before nor as after the request: {:?} (before: {:?}) {:?}", now, before, raw.anomalies), &r, &tr);
+                                }
+                            }
+                        }
+                    }
+                });
+            }
         }
     }
 
     let nv = ctx.violations.len();
     json!({"leg": "http", "requests": ctx.requests, "distinct_outcomes": ctx.outcomes, "violations": ctx.violations, "violations_total": nv, "samples": ctx.samples,
         "inconclusive_items": ctx.inconclusive.iter().take(5).collect::<Vec<_>>(),
-        "bound": format!("in process (no socket); protocol histories of {} random requests x 2 configs x 2 backends; client-id forms x 4 endpoints x 4 allow-lists (absent, empty, one, many); 15 malformed requests; body sizes 1, 4095, 4096, 4097, 65536, limit, limit+1{} in up-to-5 chunkings; never-seen clients; storage faults on each endpoint", if thorough { 120 } else { 45 }, if thorough { ", 65535, 1 MiB, limit-1, limit+1 MiB" } else { "" })})
+        "bound": format!("in process (no socket); protocol histories of {} random requests x 2 configs x 2 backends; client-id forms x 4 endpoints x 4 allow-lists (absent, empty, one, many); 15 malformed requests; body sizes 1, 4095, 4096, 4097, 65536, limit, limit+1{} in up-to-5 chunkings; never-seen clients; 2..4 uploads in flight at once on one worker (bodies chunk by chunk round-robin) x 3 shapes x 2 backends; each of the first 6 storage calls of each endpoint's request failing before / after taking effect", if thorough { 120 } else { 45 }, if thorough { ", 65535, 1 MiB, limit-1, limit+1 MiB" } else { "" })})
 }
